@@ -47,7 +47,7 @@ func init() {
 	mutant(Mutant{Rule: "R-ERRSEND", Name: "error-sent-non-blocking", File: "execution/exchange/concurrent.go",
 		Old: "\t\t\tif err != nil {\n\t\t\t\tc.buffer <- maybeStepVector{err: err}\n\t\t\t\treturn\n\t\t\t}", New: "\t\t\tif err != nil {\n\t\t\t\tselect {\n\t\t\t\tcase c.buffer <- maybeStepVector{err: err}:\n\t\t\t\tdefault:\n\t\t\t\t}\n\t\t\t\treturn\n\t\t\t}", Expect: "pull"})
 	mutant(Mutant{Rule: "R-WORKERCLOSE", Name: "cancel-aware-delivery-without-close", File: "worker/worker.go",
-		Old: "\t\t\tw.output <- w.doWork(w.workerID, task.arg, task.in)\n", New: "\t\t\tselect {\n\t\t\tcase w.output <- w.doWork(w.workerID, task.arg, task.in):\n\t\t\tcase <-w.ctx.Done():\n\t\t\t\treturn\n\t\t\t}\n", Expect: "start"})
+		Old: "\t\t\tw.output <- w.doWork(w.workerID, task.arg, task.in)\n", New: "\t\t\tselect {\n\t\t\tcase w.output <- w.doWork(w.workerID, task.arg, task.in):\n\t\t\tcase <-w.ctx.Done():\n\t\t\t\treturn\n\t\t\t}\n", Expect: "ctx.Done exit"})
 }
 
 // ---------------------------------------------------------------------------------------------
@@ -558,12 +558,54 @@ func ruleErrSend(p *core.Program) []core.Obligation {
 func ruleWorkerClose(p *core.Program) []core.Obligation {
 	const rule = "R-WORKERCLOSE"
 	var obs []core.Obligation
-	fn := p.Func("worker", "Worker.start")
-	if fn == nil {
-		return []core.Obligation{core.Ob(rule, "worker.Worker.start", "-", "", core.Lost, "not found")}
+	// the worker goroutine's code: the function started by the go statement of Group.Start and the
+	// functions of package worker it calls (start, or start + a run loop it was split into)
+	var fns []*ssa.Function
+	seenFn := map[*ssa.Function]bool{}
+	var add func(f *ssa.Function)
+	add = func(f *ssa.Function) {
+		if f == nil || f.Blocks == nil || seenFn[f] || f.Pkg == nil || core.Rel(f.Pkg.Pkg.Path()) != "worker" {
+			return
+		}
+		seenFn[f] = true
+		fns = append(fns, f)
+		core.EachInstr(f, func(_ *ssa.BasicBlock, _ int, x ssa.Instruction) {
+			if c, ok := x.(*ssa.Call); ok {
+				add(c.Call.StaticCallee())
+			}
+		})
 	}
-	// select states that receive from ctx.Done()
+	for _, f := range p.Funcs {
+		if core.Rel(f.Pkg.Pkg.Path()) != "worker" {
+			continue
+		}
+		core.EachInstr(f, func(_ *ssa.BasicBlock, _ int, x ssa.Instruction) {
+			if g, ok := x.(*ssa.Go); ok {
+				if mc, ok := g.Call.Value.(*ssa.MakeClosure); ok {
+					if cf, ok := mc.Fn.(*ssa.Function); ok {
+						add(cf)
+					}
+				} else {
+					add(g.Call.StaticCallee())
+				}
+			}
+		})
+	}
+	if len(fns) == 0 {
+		return []core.Obligation{core.Ob(rule, "worker goroutine", "-", "", core.Lost, "no go statement in package worker")}
+	}
 	k := 0
+	for _, fn := range fns {
+		obs = append(obs, workerCloseIn(p, rule, fn, &k)...)
+	}
+	return obs
+}
+
+func workerCloseIn(p *core.Program, rule string, fn *ssa.Function, kp *int) []core.Obligation {
+	var obs []core.Obligation
+	// select states that receive from ctx.Done()
+	k := *kp
+	defer func() { *kp = k }()
 	core.EachInstr(fn, func(b *ssa.BasicBlock, i int, ins ssa.Instruction) {
 		sel, ok := ins.(*ssa.Select)
 		if !ok {
@@ -602,7 +644,7 @@ func ruleWorkerClose(p *core.Program) []core.Obligation {
 				}
 			}
 			k++
-			key := fmt.Sprintf("worker.Worker.start ctx.Done exit #%d closes the output", k)
+			key := fmt.Sprintf("worker goroutine ctx.Done exit #%d closes the output", k)
 			if target == nil {
 				obs = append(obs, core.Ob(rule, key, p.Pos(sel.Pos()), core.FuncName(fn), core.Undecided, "select state not resolved"))
 				continue
